@@ -82,6 +82,12 @@ void AbstractParameterAliasable::aliasParameters(const std::string& p1, const st
 
   if (aliasListenersRegister_.find(idCheck) != aliasListenersRegister_.end())
     throw Exception("AbstractParameterAliasable::aliasParameters. Trying to alias parameter " + p2 + " to " + p1 + ", but parameter " + p1 + " is already aliased to parameter " + p2 + ".");
+  // p1 must neither be p2 itself nor follow p2 through a chain of aliases:
+  for (string from = p1; from != ""; from = getFrom(getNamespace() + from))
+  {
+    if (from == p2)
+      throw Exception("AbstractParameterAliasable::aliasParameters. Trying to alias parameter " + p2 + " to " + p1 + ", but this would close a cycle of aliases.");
+  }
   Parameter* param1 = &getParameter_(p1);
   Parameter* param2 = &getParameter_(p2);
 
